@@ -93,6 +93,21 @@ def decideObj (env : Env) (o : Obj) : Decision :=
         else pkgHash env lpkg o.name o.cls
       | .other => .keep
 
+/-- what an embedded field is named after -/
+inductive Embedded
+  | no                                                    -- not an embedded field
+  | unnamed                                               -- embedded predeclared type such as `int`: left alone
+  | named (name : Bytes) (cls : NameClass) (pkgPath : Option Bytes)   -- the type (or alias) name
+  deriving Repr
+
+/-- the decision for an identifier's object as every caller gets it (`obfuscatedObjectName` including its first
+step): an embedded field is obfuscated as the type it is named after -/
+def decideIdent (env : Env) (o : Obj) (emb : Embedded) : Decision :=
+  match emb with
+  | .no => decideObj env o
+  | .unnamed => .keep
+  | .named n c p => decideObj env { kind := .typeName, name := n, cls := c, pkgPath := p }
+
 def fixedPath (path : Bytes) : Bool :=
   GV.Gen.fixedImportPaths.any (fun s => str s == path) ||
   GV.Gen.compilerIntrinsics.any (fun p => str p.1 == path) ||
